@@ -97,6 +97,14 @@ def strategy(tier):
             c["bc"] = "side"
             # complex modulus (AssemblePoisson does not accept a complex property)
             c["cplx"] = draw(st.sampled_from([False, False, True]))
+        # complex *Hermitian* sparse pencils: the real symmetric FE pencil under a unitary diagonal similarity
+        # (K' = D^H K D, M' = D^H M D with small phases) -- same real spectrum, complex Hermitian storage
+        c["phase"] = (not c["cplx"]) and draw(st.sampled_from([False, False, True]))
+        if c["phase"]:
+            # complex storage sends eigsh through ARPACK's general complex driver, which breaks down (error 3) on the
+            # multiple spurious bc eigenvalue when it lies inside the spectrum: keep it far away (as for free-free
+            # elastic pencils, see above)
+            c["kbc"] = "far"
         return c
 
     return st.one_of(dense(), dense(), sparse())
@@ -500,7 +508,8 @@ def _check_sparse(case):
     # requested number of modes, limited by what ARPACK accepts (k < n for eigsh, k < n-1 for eigs)
     nm = case["nmodes"]
     k_eff = 6 if nm is None else nm
-    kmax = n - 2 if cplx else n - 1
+    phase = bool(case.get("phase")) and not cplx
+    kmax = n - 2 if (cplx or phase) else n - 1
     if k_eff > kmax or len(free) < 2:
         labels.append("skipped_too_small")
         return labels, []
@@ -546,6 +555,14 @@ def _check_sparse(case):
 
     K = b["assemble_K"](bc, kbc)
     M = b["assemble_M"](bc, mbc) if gen else None
+    if phase:
+        import scipy.sparse as sps
+        ph = np.random.default_rng([case["payload_seed"], 77]).uniform(-0.3, 0.3, n)
+        D = sps.diags(np.exp(1j * ph))
+        K = (D.conj() @ K @ D).asformat(K.format)
+        if M is not None:
+            M = (D.conj() @ M @ D).asformat(M.format)
+        labels.append("complex_hermitian")
     Kd = np.asarray(K.todense())
     Md = None if M is None else np.asarray(M.todense())
     # reference spectrum: physical modes + nbc spurious modes K_bc/M_bc
@@ -598,7 +615,7 @@ def _check_sparse(case):
     if not (np.all(np.isfinite(W)) and np.all(np.isfinite(Q))):
         bad(f"finite:{tag}", "non-finite eigenvalues or eigenvectors")
         return labels, V
-    _common_checks(bad, tag, Kd, Md, W, Q, case["sorter"], target, fn, not cplx)
+    _common_checks(bad, tag, Kd, Md, W, Q, case["sorter"], target, fn, not cplx and not phase)
     if conclusive:
         sc = max(np.max(np.abs(want)), abs(sigma), 1e-300)
         d = _match(W, want)
